@@ -1,6 +1,7 @@
 // Commands for C11: Serializer<MemPacker> round trips
 #include "probe.hpp"
 #include "obs_getters.hpp"
+#include "cmd_pack_common.hpp"
 
 #include <opm/common/utility/MemPacker.hpp>
 #include <opm/common/utility/Serializer.hpp>
@@ -15,65 +16,13 @@
 #include <memory>
 
 using namespace probe;
+using namespace probe::pack;
 
 namespace {
 
 const Opm::Parser& the_parser() {
     static const Opm::Parser p;
     return p;
-}
-
-std::uint64_t fnv(const std::string& s) {
-    std::uint64_t h = 1469598103934665603ull;
-    for (unsigned char c : s) { h ^= c; h *= 1099511628211ull; }
-    return h;
-}
-
-void put_dump(JW& out, const char* key, const std::string& dump, bool full) {
-    out.key(key);
-    if (full) out.str(dump); else out.u(fnv(dump));
-}
-
-// x: original; make_y(): fresh default object; obs(): public-getter observation; ser(): member-list dump
-template <class T> auto equal_or_na(const T& a, const T& b, int) -> decltype(a == b, int()) { return (a == b) ? 1 : 0; }
-template <class T> int equal_or_na(const T&, const T&, long) { return -1; }    // class has no operator==
-
-template <class T, class Make, class Obs>
-void roundtrip(const char* label, const T& x, Make&& make_y, Obs&& obs, bool full, JW& out) {
-    out.key(label).obj();
-    Opm::Serialization::MemPacker packer;
-    Opm::Serializer ser(packer);
-    ser.pack(x);
-    const std::size_t packed = ser.position();
-    out.kv_i("packed_bytes", packed);
-    T y = make_y();
-    ser.unpack(y);
-    out.kv_i("consumed_bytes", ser.position());
-    // second generation first: observations below go through getters that may fill lazily grown
-    // (and serialized) caches such as the unit system's dimension map
-    Opm::Serialization::MemPacker packer2;
-    Opm::Serializer ser2(packer2);
-    ser2.pack(y);
-    out.kv_i("repacked_bytes", ser2.position());
-    bool identical = false;
-    {
-        Opm::Serializer ser1b(packer);
-        ser1b.pack(x);
-        out.kv_i("packed_again_bytes", ser1b.position());
-    }
-    T z = make_y();
-    ser2.unpack(z);
-    out.kv_i("reconsumed_bytes", ser2.position());
-    (void)identical;
-    out.kv_i("equal", equal_or_na(x, y, 0));
-    out.kv_i("equal2", equal_or_na(y, z, 0));
-    put_dump(out, "ser_x", serial_dump(x), full);
-    put_dump(out, "ser_y", serial_dump(y), full);
-    put_dump(out, "ser_z", serial_dump(z), full);
-    { JW o; obs(x, o); put_dump(out, "obs_x", o.s, full); }
-    { JW o; obs(y, o); put_dump(out, "obs_y", o.s, full); }
-    { JW o; obs(z, o); put_dump(out, "obs_z", o.s, full); }
-    out.end_obj();
 }
 
 } // namespace
